@@ -20,7 +20,7 @@ META = {
     "text": "Redact.tla enumerates every claims tree that is a spine of containers (objects and lists) of depth 1..4 with "
             "an optional sibling leaf at every level and a key class (sensitive exact / sensitive as substring / case "
             "variant / neutral) at every object level, optionally with one sub-object referenced twice, plus a few spines of depth "
-            "5-6 (7,086 trees quick, depth 3; about 81,000 thorough, depth 4), logged under the configurations of "
+            "5-6 (4,062 trees quick, depth 3; about 57,000 thorough, depth 4), logged under the configurations of "
             "Redact!Configs (redactor mode x logger level x dict/list vs Mapping/tuple x authenticated x formatter), with the oracle 'a leaf is hidden iff "
             "some key on its path is sensitive; the outermost sensitive key stays visible with a redacted value', and "
             "checks seven table-sanity invariants (incl. agreement with key-by-key redaction on flat claims) and refutes the faithful variant (Dev_TopLevelOnly) on the model.  Each tree is "
@@ -323,7 +323,7 @@ def run(ctx: Ctx) -> None:
     raising = [g for g in configs if g["mode"] == "raising"]
     ctx.rng.shuffle(others)
     ctx.rng.shuffle(raising)
-    n_extra = 1 if quick else 3
+    n_extra = 1 if quick else 2
     rr = 0
     records: list[dict] = []
     n_http = 0
@@ -332,8 +332,10 @@ def run(ctx: Ctx) -> None:
         for ci, cj in enumerate(cases):
             case, exp = cj["case"], cj["exp"]
             levels, alias = case["levels"], case["alias"]
-            plan_cfgs = [{**BASE, "fmt": "json" if ci % 2 == 0 else "access"}, raising[ci % len(raising)]]
-            for _ in range(n_extra):
+            plan_cfgs = [{**BASE, "fmt": "json" if ci % 2 == 0 else "access"}]
+            if quick or ci % 2 == 0:
+                plan_cfgs.append(raising[(ci // 2) % len(raising)])
+            for _ in range(n_extra if alias == 0 else 1):
                 plan_cfgs.append(others[rr % len(others)])
                 rr += 1
             for vi, cfg in enumerate(plan_cfgs):
